@@ -28,20 +28,20 @@ var verifDirForNormalize = "/verif"
 
 // Prog is the resolved program.
 type Prog struct {
-	Repo    string
-	Fset    *token.FileSet
-	Pkgs    []*packages.Package          // module packages, sorted by path
-	ByPath  map[string]*packages.Package // import path -> package (module only)
-	SSA     *ssa.Program
-	SSAPkg  map[string]*ssa.Package // import path -> ssa package (module only)
-	cg      *callgraph.Graph
-	vtacg   *callgraph.Graph
-	allFns  map[*ssa.Function]bool
-	modFns  []*ssa.Function // every source function of the module (incl. anonymous), sorted
+	Repo         string
+	Fset         *token.FileSet
+	Pkgs         []*packages.Package          // module packages, sorted by path
+	ByPath       map[string]*packages.Package // import path -> package (module only)
+	SSA          *ssa.Program
+	SSAPkg       map[string]*ssa.Package // import path -> ssa package (module only)
+	cg           *callgraph.Graph
+	vtacg        *callgraph.Graph
+	allFns       map[*ssa.Function]bool
+	modFns       []*ssa.Function // every source function of the module (incl. anonymous), sorted
 	NormalizeLog []string
 	Normalised   []*ast.File // syntax of the packages that were rewritten by the normaliser
-	fnDecl  map[*ssa.Function]*ast.FuncDecl
-	Overlay map[string][]byte
+	fnDecl       map[*ssa.Function]*ast.FuncDecl
+	Overlay      map[string][]byte
 }
 
 // LoadProg loads the module at dir.  Type errors, zero packages or ignored
@@ -189,6 +189,9 @@ func LoadProg(dir string, overlay map[string][]byte) (*Prog, error) {
 					}
 				}
 				n, log := normalizePackage(view, known[rel(pk.PkgPath)])
+				if os.Getenv("VERIF_DEBUG_NORM") != "" {
+					fmt.Fprintf(os.Stderr, "normalise: %s round %d: %d expansions\n", rel(pk.PkgPath), round, n)
+				}
 				if n == 0 {
 					break
 				}
